@@ -42,6 +42,7 @@ type C04Case struct {
 	Buf     int          `json:"buf"`
 	Hangup  bool         `json:"hangup"`     // every peer closes its connection right after its last byte, without waiting
 	SlowNs  int64        `json:"slow_ns"`    // virtual time the incoming handler spends on each message (0: none)
+	AtOnce  bool         `json:"at_once"`    // all connections are pending at the listener at the same moment
 	Conns   []ConnScript `json:"conns"`
 	Senders [][]OutOp    `json:"senders"`
 }
@@ -141,6 +142,7 @@ func genC04(t *rapid.T) *C04Case {
 	nc := 1
 	if c.Role == "acceptor" {
 		nc = rapid.IntRange(1, 4).Draw(t, "nConns")
+		c.AtOnce = nc > 1 && rapid.Bool().Draw(t, "atOnce")
 	}
 	for i := 0; i < nc; i++ {
 		c.Conns = append(c.Conns, genConnScript(t, i))
@@ -237,8 +239,11 @@ func checkC04(c *C04Case, rec *evid.Rec) (vs []pbt.Violation) {
 			for i := range c.Conns {
 				conns[i] = netsim.NewConn(fmt.Sprint(i))
 				ar.L.Connect(conns[i])
-				synctest.Wait() // accepted and handed to handleNewClient, in this order
+				if !c.AtOnce {
+					synctest.Wait() // accepted and handed to handleNewClient, in this order
+				}
 			}
+			synctest.Wait()
 		} else {
 			ir = rig.NewInitiatorRig(c.Buf, 10*time.Second)
 			conns[0] = ir.C
@@ -339,6 +344,39 @@ func checkC04(c *C04Case, rec *evid.Rec) (vs []pbt.Violation) {
 	_ = returned
 	_ = connsClosed
 	// ---- inbound oracle ----
+	if c.AtOnce {
+		// which handler serves which connection is not known beforehand: identify
+		// each recorder by the connection its first message came from; a recorder
+		// that mixes connections stays where it is and fails the comparison below
+		byConn := make([]*recorder, len(recs))
+		var spare []*recorder
+		for _, r := range recs {
+			ci := -1
+			if len(r.got) > 0 {
+				fmt.Sscanf(msgID(r.got[0]), "c%d-", &ci)
+			}
+			if ci >= 0 && ci < len(byConn) && byConn[ci] == nil {
+				byConn[ci] = r
+			} else {
+				spare = append(spare, r)
+			}
+		}
+		for i := range byConn {
+			if byConn[i] == nil && len(spare) > 0 {
+				byConn[i], spare = spare[0], spare[1:]
+			}
+		}
+		copy(recs, byConn)
+		// outbound messages were sent through whichever handler was created first
+		for i, cn := range conns {
+			if len(cn.Stream()) > 0 && i != 0 {
+				conns[0], conns[i] = conns[i], conns[0]
+				c.Conns[0], c.Conns[i] = c.Conns[i], c.Conns[0]
+				recs[0], recs[i] = recs[i], recs[0]
+				break
+			}
+		}
+	}
 	nontrivial := false
 	for i := range c.Conns {
 		cs := &c.Conns[i]
@@ -492,6 +530,9 @@ func checkC04(c *C04Case, rec *evid.Rec) (vs []pbt.Violation) {
 	}
 	if c.SlowNs > 0 {
 		rec.Hist("slow-incoming-handler")
+	}
+	if c.AtOnce {
+		rec.Hist("connections-pending-at-once")
 	}
 	rec.Hist(fmt.Sprintf("buf=%d", c.Buf))
 	rec.Hist(fmt.Sprintf("connections=%d", len(c.Conns)))
